@@ -5,7 +5,8 @@ LEAN_MODULE = ["Urandom.Props.C10", "Urandom.Props.C10T", "Urandom.Props.C03T", 
 RULE = ("requests: every generator (Xoshiro256, SplitMix64, Wyrand, ChaCha8/12/20, Mock, System<N> over the scripted entropy source) x destination lengths 0..600 (+4 KiB, + 25 fills of 64 KiB .. 128 KiB at all alignment classes) x start offsets 0..15 inside a larger arena "
         "x element types u8/u16/u32/u64/u128/[u8;3]/[u32;5] x fill_bytes / fill_bytes_uninit / random_bytes / io::Read::read / read_exact, after a random prefix of draws; "
         "each case runs twice on canary backgrounds 0x00 and 0xFF: bytes, canaries, full initialisation, reported length and the next draw are compared with the model. "
-        "non-trivial = length > 0; distinct = distinct request line")
+        "non-trivial = length > 0; distinct = distinct request line"
+        " Since rounds 9/10: zero-sized element types (z0, unit, rbunit); big typed fills with element sizes 3 and 20 (4200..100000 bytes) in the LE word-stream oracle.")
 ASSUMPTIONS = ["writes are observed through a canary-framed arena (64 bytes each side) and two backgrounds; thorough runs repeat a subset under Miri (supporting evidence only)"]
 
 ELEMS = {"u8": (1, 1), "u16": (2, 2), "u32": (4, 4), "u64": (8, 8), "u128": (16, 16), "a3u8": (3, 1), "a5u32": (20, 4), "z0": (0, 1), "unit": (0, 1)}
